@@ -65,7 +65,7 @@ def main():
     units = []
     for modname, target in pd.get("contracts", []):
         cmod = importlib.import_module(modname)
-        c = [x for x in cmod.CONTRACTS if x.target == target][0]
+        c = [x for x in cmod.CONTRACTS if x.name == target][0]
         labels = list(cmod.configs_for(c).keys()) if hasattr(cmod, "configs_for") else [""]
         for lb in labels:
             units.append((modname, target, lb, timeout_ms, replay_dir, a.prop))
